@@ -319,6 +319,10 @@ def run(ctx):
     _C20t.r12_subtractions(ctx, _C20t.input_reachable(ctx))   # no subtraction (sizes, Durations) that can underflow and kill the task that computes it
     from . import effects
     effects.check_property(ctx, "C10")    # R10.E: no operation on shared protocol state outside the reviewed table
+    from . import C03 as _C03d, C05 as _C05d
+    _C03d.r3_totality(ctx)           # the decoder is total: no frame the peer may legally send (any command byte, any declared length) makes it return an error
+    _C05d.r7_batching(ctx)          # the SYN and the destination of every open leave the client: buffering is switched off on the way to every first data write, whatever happened to earlier opens
+    C09.r3_recv_exits(ctx)          # every way the receive loop ends closes the session, so a pending open always gets a verdict or a session error
     from . import C02
     C02.r3_allocator(ctx)    # racing opens on one session get distinct ids (each verdict reaches its own open)
     r8_version_independent_of_padding(ctx)
